@@ -72,6 +72,10 @@ func c39Judge(s *orcStep, res *run.Result) {
 		res.Inc("skipped_board_declared_without_map")
 		return
 	}
+	if orcWentHollow(s) {
+		res.Inc("skipped_board_emptied_and_printed_without_map")
+		return
+	}
 	kind := s.Call.Kind
 	t := -1
 	var destParent []string
@@ -147,6 +151,12 @@ func c39Judge(s *orcStep, res *run.Result) {
 			return
 		}
 		reported = true
+		if t >= 0 && pre.Objs[t].Foreign {
+			// one cause: relocating an object that is (partly) declared in an imported file cannot
+			// be done by editing this file, and is not refused
+			orcViol(res, "C39."+clause, "C39.imported-object-relocated-instead-of-refused:"+kind, msg+"\n"+s.describe())
+			return
+		}
 		if intoOwn {
 			// one cause, many symptoms: a destination inside the moved subtree is not refused
 			orcViol(res, "C39."+clause, "C39.destination-inside-moved-subtree-not-refused", msg+"\n"+s.describe())
@@ -215,7 +225,7 @@ func c39Judge(s *orcStep, res *run.Result) {
 				}
 			}
 		default:
-			if po.AbsID != qo.AbsID {
+			if !strings.EqualFold(po.AbsID, qo.AbsID) {
 				later("unrelated-id-changed", fmt.Sprintf("object %s is outside the moved subtree but its ID changed %s -> %s", po.Tag, po.AbsID, qo.AbsID))
 			}
 		}
@@ -240,7 +250,7 @@ func c39Judge(s *orcStep, res *run.Result) {
 				later("connection-reattached", fmt.Sprintf("connection %s connected %s -> %s, now %s -> %s (%s)", pe.Tag, pre.ref(pe.Src), pre.ref(pe.Dst), post.ref(qe.Src), post.ref(qe.Dst), qe.AbsID))
 			}
 		}
-		if !inSub(pe.Src) && !inSub(pe.Dst) && pe.AbsID != qe.AbsID && withArrows {
+		if !inSub(pe.Src) && !inSub(pe.Dst) && !strings.EqualFold(pe.AbsID, qe.AbsID) && withArrows {
 			later("unrelated-id-changed", fmt.Sprintf("connection %s touches nothing in the moved subtree but its ID changed %s -> %s", pe.Tag, pe.AbsID, qe.AbsID))
 		}
 	}
